@@ -61,16 +61,16 @@ NextReset(i) == CHOOSE j \in (i + 1)..(Len(Trace) + 1) :
                    /\ (j = Len(Trace) + 1 \/ Trace[j].e = "reset")
                    /\ \A k \in (i + 1)..(j - 1) : Trace[k].e # "reset"
 
-TraceInit == /\ ws = {} /\ l = 1 /\ failed = <<>> /\ cur = ""
+TraceInit == /\ ws = {} /\ l = 1 /\ failed = <<>> /\ cur = [id |-> "", start |-> 0]
 
 TraceReset == /\ l <= Len(Trace) /\ Ev.e = "reset"
-              /\ ws' = {InitW(Ev.mode)} /\ cur' = Ev.id /\ l' = l + 1 /\ UNCHANGED failed
+              /\ ws' = {InitW(Ev.mode)} /\ cur' = [id |-> Ev.id, start |-> l] /\ l' = l + 1 /\ UNCHANGED failed
 
 TraceCall == /\ l <= Len(Trace) /\ Ev.e = "call"
              /\ LET ex == Explains(Ev)
                 IN IF ex # {}
                    THEN ws' = ex /\ l' = l + 1 /\ UNCHANGED <<failed, cur>>
-                   ELSE /\ failed' = Append(failed, [id |-> cur, line |-> l, why |-> WhyNot(Ev)])
+                   ELSE /\ failed' = Append(failed, [id |-> cur.id, call |-> l - cur.start, why |-> WhyNot(Ev)])
                         /\ l' = NextReset(l) /\ ws' = {} /\ UNCHANGED cur
 
 TraceDone == /\ l = Len(Trace) + 1
@@ -80,6 +80,6 @@ TraceDone == /\ l = Len(Trace) + 1
 TraceNext == TraceReset \/ TraceCall \/ TraceDone
 TraceSpec == TraceInit /\ [][TraceNext]_tvars
 
-\* all events were consumed (the verdict file is only written then)
-TraceAccepted == TLCGet("stats").diameter = Len(Trace) + 2
+\* Acceptance: the verdict file is written only by TraceDone, i.e. after every event was
+\* either explained or recorded in `failed`; the check requires the file and an empty `failed`.
 =============================================================================
